@@ -2,8 +2,8 @@
   TextDoc: grouping of Text elements into text blocks and writing the classifier's verdict back
   (`Document.CreateTextDocument`, `TextBlock.MergeNext`, `TextDocument.ApplyToModel`).
   The 14 heuristic filters are an atom: a verdict is a list of blocks, each a list of indices of
-  Text elements (filters only ever merge *adjacent* blocks, keeping element order) with a content
-  flag and a title label.
+  Text elements (filters only ever merge *adjacent* blocks or drop whole blocks, keeping element
+  order; the harness checks this on every page) with a content flag and a title label.
 -/
 import Distill.Model.Builder
 namespace Distill
